@@ -160,6 +160,10 @@ func step(h, no, np int) {
 			verif_Assert(c.ok, c.label)
 		}
 	}
+	// the bystander deployment (decimal-prefix sibling of the focus) still satisfies every clause
+	for _, c := range e.invariant(post, 12, 2, 1) {
+		verif_Assert(c.ok, c.label)
+	}
 	// C01: conservation and direction of transfers
 	verif_Assert(!e.bank.short, "C01 escrow module always holds enough to pay out")
 	verif_Assert(post.module.Equal(sumBalances(post).Add(e.R)), "C01 module balance equals the sum of recorded balances")
@@ -190,17 +194,17 @@ func checkFrame(pre, post state, dseq uint64) {
 	g0, g1 := pre.grp[gk{dseq, 1}], post.grp[gk{dseq, 1}]
 	verif_Assert(verif_And(d0.State == d1.State, g0.State == g1.State), "C06 records of another deployment are untouched (deployment, group)")
 	for id, o0 := range pre.ord {
-		if id.DSeq == dseq {
+		if logicalDSeq(id.DSeq) == dseq {
 			verif_Assert(o0.State == post.ord[id].State, "C06 records of another deployment are untouched (order)")
 		}
 	}
 	for id, b0 := range pre.bid {
-		if id.DSeq == dseq {
+		if logicalDSeq(id.DSeq) == dseq {
 			verif_Assert(b0.State == post.bid[id].State, "C06 records of another deployment are untouched (bid)")
 		}
 	}
 	for id, l0 := range pre.lease {
-		if id.DSeq == dseq {
+		if logicalDSeq(id.DSeq) == dseq {
 			verif_Assert(l0.State == post.lease[id].State, "C06 records of another deployment are untouched (lease)")
 		}
 	}
@@ -233,25 +237,25 @@ func checkOtherGroup(pre, post state, other int) {
 	const label = "C06 a message touches only the records of the group it names"
 	verif_Assert(pre.grp[gk{1, other}].State == post.grp[gk{1, other}].State, label)
 	for id, o0 := range pre.ord {
-		if id.DSeq == 1 && int(id.GSeq) == other {
+		if logicalDSeq(id.DSeq) == 1 && int(id.GSeq) == other {
 			verif_Assert(o0.State == post.ord[id].State, label)
 		}
 	}
 	for id, b0 := range pre.bid {
-		if id.DSeq == 1 && int(id.GSeq) == other {
+		if logicalDSeq(id.DSeq) == 1 && int(id.GSeq) == other {
 			verif_Assert(b0.State == post.bid[id].State, label)
 			k := mtypes.EscrowAccountForBid(id)
 			verif_Assert(verif_And(pre.acct[k].State == post.acct[k].State, pre.acct[k].Balance.Amount.Equal(post.acct[k].Balance.Amount)), label)
 		}
 	}
 	for id, l0 := range pre.lease {
-		if id.DSeq == 1 && int(id.GSeq) == other {
+		if logicalDSeq(id.DSeq) == 1 && int(id.GSeq) == other {
 			verif_Assert(l0.State == post.lease[id].State, label)
 			verif_Assert(pre.pay[leasePayKey(id)].State == post.pay[leasePayKey(id)].State, label)
 		}
 	}
 	for id := range post.ord {
-		if id.DSeq == 1 && int(id.GSeq) == other {
+		if logicalDSeq(id.DSeq) == 1 && int(id.GSeq) == other {
 			_, existed := pre.ord[id]
 			verif_Assert(existed, label)
 		}
@@ -496,3 +500,4 @@ func Harness_C07_CloseBid()          { stepDet(hCloseBid, 1, 2) }
 func Harness_C07_CreateLease()       { stepDet(hCreateLease, 1, 2) }
 func Harness_C07_WithdrawLease()     { stepDet(hWithdrawLease, 1, 2) }
 func Harness_C07_CloseLease()        { stepDet(hCloseLease, 1, 2) }
+func Harness_C07_CreateLease_13()    { stepDet(hCreateLease, 1, 3) } // two losing bids: the order they are closed in must not depend on a map
